@@ -37,6 +37,7 @@ def handle (line : String) : String :=
   | "fs" :: args => Dm.FsCmd.cmdFs args
   | "dt" :: args => Dm.DtCmd.cmdDt args
   | "bc" :: args => Dm.BytesCmd.cmdBc args
+  | "fd" :: args => Dm.FcCmd.cmdFd args
   | _ => "bad-op"
 
 partial def loop (h : IO.FS.Stream) (out : IO.FS.Stream) : IO Unit := do
